@@ -1354,7 +1354,13 @@ class Interp:
         if name == "ones":
             return lambda shape, dtype=None: NP.zeros(I.as_shape(shape), 1, "np.ones")
         if name == "full":
-            return lambda shape, fill_value, dtype=None: NP.full(I.as_shape(shape), fill_value)
+            def full(shape, fill_value, dtype=None):
+                r = NP.full(I.as_shape(shape), fill_value)
+                if dtype is not None:
+                    tn = getattr(dtype, "name", str(dtype))
+                    r.dtype = "float" if "float" in tn else "int" if "int" in tn else r.dtype
+                return r
+            return full
         if name in ("zeros_like", "ones_like", "full_like", "empty_like"):
             def like(a, fill_value=None, dtype=None, _n=name):
                 fv = {"zeros_like": 0, "ones_like": 1, "empty_like": SymScalar(("sym", "uninitialised"))}.get(_n, fill_value)
